@@ -10,4 +10,5 @@ HARNESSES = [
     dict(name='xmlh', need_lib=True, deps=['runtime/xml.cpp']),
     dict(name='logh', need_lib=True, extra_flags=['-ldl']),
     dict(name='sched', need_lib=True, extra_flags=['-ldl']),
+    dict(name='mpmc'),
 ]
